@@ -105,8 +105,8 @@ def c06_gen(rng, tier):
     for mode, h in cat:
         out.append(c06_line("b%d" % k, h.split(","), mode))
         k += 1
-    nplain = budget(tier, 110, 3000)
-    ntimed = budget(tier, 14, 300)
+    nplain = budget(tier, 1400, 8000)
+    ntimed = budget(tier, 80, 500)
     for i in range(nplain):
         out.append(c06_line("p%d" % i, c06_hist(rng, rng.randrange(4, budget(tier, 16, 40)), "plain"), "plain"))
     for i in range(ntimed):
@@ -155,8 +155,8 @@ def c06_classify(line, res):
 
 def c06_stress_gen(rng, tier):
     out = []
-    reps = budget(tier, 1, 12)
-    n = budget(tier, 300, 3000)
+    reps = budget(tier, 2, 12)
+    n = budget(tier, 400, 3000)
     k = 0
     for rep in range(reps):
         for via, idleus, slow in (("transport", 400, 0), ("transport", 1, 15), ("tcp", 2000, 0), ("udpfb", 0, 0)):
